@@ -44,12 +44,12 @@ ATOL = 1e-12
 
 
 def bounds(tier):
-    return {"classes": "1..%d" % (3 if tier == "quick" else 4), "k_1": [3, 5] if tier == "quick" else [3, 4, 5],
+    return {"classes": "1..3 (quick); thorough: 1..4 for k_1 = 3 (Gassner elementary 1..3), 1..3 for k_1 = 4, 5", "k_1": [3, 5] if tier == "quick" else [3, 4, 5],
             "gassner_classes": "1..%d" % (3 if tier == "quick" else 4)}
 
 
 def options(tier):
-    return {"timeout_ms": 20000 if tier == "quick" else 120000}
+    return {"timeout_ms": 20000 if tier == "quick" else 60000, "task_budget_s": 600 if tier == "quick" else 2400}
 
 
 def prepare(tier):
@@ -61,13 +61,16 @@ def cases(tier):
     out = []
     ks = [3, 5] if q else [3, 4, 5]
     for k in ks:
-        for m in range(1, (3 if q else 4) + 1):
+        mmax = 3 if (q or k > 3) else 4        # four classes only for k = 3 (degree of the rational functions)
+        for m in range(1, mmax + 1):
             out.append({"kind": "linear", "k": k, "m": m, "_weight": 3 ** m, "_split": 4 if m >= 4 else None})
-        for m in range(1, (3 if q else 4) + 1):
+        for m in range(1, mmax + 1):
             for rule in ("elementary", "haibach"):
+                if m == 4 and rule == "elementary":
+                    continue        # (the solidity expressions of four symbolic classes cost ~1.6 s per path in term normalisation)
                 c = {"kind": "gassner", "rule": rule, "k": k, "m": m, "_weight": 6 ** m}
                 if m >= 3:
-                    c["_split"] = 4
+                    c["_split"] = 4 if m == 3 else 7
                 out.append(c)
         # curves given for another failure probability, with scatter (damage is evaluated at 50 %)
         for m in (1, 2):
